@@ -398,8 +398,9 @@ fn completions_for_type(genv: &GlobalTypeEnv, ty: &tast::Ty) -> Vec<DotCompletio
             }
         }));
     }
-    if let tast::Ty::TApp { ty, .. } = ty {
-        let base_name = ty.get_constr_name_unsafe();
+    if let tast::Ty::TApp { ty, .. } = ty
+        && let Some(base_name) = ty.try_constr_name()
+    {
         if let Some(impl_def) = genv
             .trait_env
             .inherent_impls
@@ -835,8 +836,9 @@ fn colon_colon_inherent_methods(
             }
         }));
     }
-    if let tast::Ty::TApp { ty, .. } = receiver_ty {
-        let base_name = ty.get_constr_name_unsafe();
+    if let tast::Ty::TApp { ty, .. } = receiver_ty
+        && let Some(base_name) = ty.try_constr_name()
+    {
         if let Some(impl_def) = genv
             .trait_env
             .inherent_impls
